@@ -92,13 +92,37 @@ def _r1(ctx):
               "byte loop condition")
     ret_true = [r2 for r2 in ast.walk(mb.node) if isinstance(r2, ast.Return) and isinstance(r2.value, ast.Tuple)
                 and U(r2.value.elts[0]) == "True"]
-    ctx.check(bool(ret_true) and bool(cnt) and U(ret_true[0].value.elts[1]) == cnt[0] and any(
-        p and U(e) == C.canon_eq("%s[0:len(%s)]" % (U(wl[0].body[1].target) if len(wl[0].body) > 1 and isinstance(
-            wl[0].body[1], ast.AugAssign) else "extracted_bytes", mb.params()[2]), mb.params()[2])
-        for e, p in C.facts_at(ret_true[0])), "R1",
-        "match iff the collected bytes start with the marker bytes; the count of consumed lines is returned", mb.where(),
-        "match_bytes does not return (True, consumed lines) exactly when the byte prefix equals the marker", mb.qname,
-        "byte comparison")
+    ebytes = U(wl[0].body[1].target) if len(wl[0].body) > 1 and isinstance(wl[0].body[1], ast.AugAssign) else "extracted_bytes"
+    want = mb.params()[2]
+    prefix_eq, zip_eq, len_ok = False, False, False
+    if ret_true:
+        for e, p in C.norm_fact_nodes(ret_true[0]):
+            t_ = C.CT(U(e))
+            if p and t_ in (C.CT(C.canon_eq("%s[0:len(%s)]" % (ebytes, want), want)), C.CT("%s[0:len(%s)] == %s" % (ebytes, want, want)),
+                            C.CT("%s[:len(%s)] == %s" % (ebytes, want, want)), C.CT("%s == %s[:len(%s)]" % (want, ebytes, want)),
+                            C.CT("%s == %s[0:len(%s)]" % (want, ebytes, want))):
+                prefix_eq = True
+            # all(a == b for a, b in zip(collected, marker)): equal as far as the shorter one goes ...
+            if p and isinstance(e, ast.Call) and isinstance(e.func, ast.Name) and e.func.id == "all" and len(e.args) == 1 \
+                    and isinstance(e.args[0], (ast.GeneratorExp, ast.ListComp)) and len(e.args[0].generators) == 1:
+                g_ = e.args[0].generators[0]
+                el_ = e.args[0].elt
+                if not g_.ifs and C.is_call_to(g_.iter, "zip") and {U(a_) for a_ in g_.iter.args} == {ebytes, want} and len(g_.iter.args) == 2 \
+                        and isinstance(g_.target, ast.Tuple) and isinstance(el_, ast.Compare) and len(el_.ops) == 1 \
+                        and isinstance(el_.ops[0], ast.Eq) and {U(el_.left), U(el_.comparators[0])} == {U(x_) for x_ in g_.target.elts}:
+                    zip_eq = True
+            # ... so the collected bytes must be at least as many as the marker's
+            if (t_, p) in ((C.CT("len(%s) >= len(%s)" % (ebytes, want)), True), (C.CT("len(%s) < len(%s)" % (ebytes, want)), False),
+                           (C.CT("len(%s) <= len(%s)" % (want, ebytes)), True), (C.CT("len(%s) > len(%s)" % (want, ebytes)), False)):
+                len_ok = True
+    cmp_ok = prefix_eq or (zip_eq and len_ok)
+    mentions = bool(ret_true) and any(ebytes in U(e) and want in U(e) for e, _ in C.norm_fact_nodes(ret_true[0]))
+    ctx.judge(bool(ret_true) and bool(cnt) and U(ret_true[0].value.elts[1]) == cnt[0] and cmp_ok,
+              not bool(ret_true) or not bool(cnt) or U(ret_true[0].value.elts[1]) != cnt[0] or not mentions or (zip_eq and not len_ok), "R1",
+              "match iff the collected bytes start with the marker bytes; the count of consumed lines is returned", mb.where(),
+              "match_bytes does not return (True, consumed lines) exactly when the byte prefix equals the marker" + (
+                  ": zip() stops at the shorter sequence, so fewer bytes than the marker has (even none) match" if zip_eq and not len_ok else ""),
+              mb.qname, "byte comparison")
 
 
 def _same_branch(a, b):
